@@ -15,6 +15,7 @@ def specs(ctx):
     s += sysrun.specs_faults(ctx, two[:: (1 if ctx.thorough() else 2)], seeds=1)
     pts = list(range(0, 120, 5 if ctx.thorough() else 12))
     s += sysrun.specs_cancel(ctx, two, ['future'], pts)
+    s += sysrun.specs_early_cancel(ctx, two[::2], seeds=3 if not ctx.thorough() else 6)
     s += sysrun.specs_cancel(ctx, two[::3], ['shutdown', 'exit_exc'], pts[::2])
     return s
 
